@@ -64,6 +64,15 @@ package main
 // times before 1970, callers without a file, dotted names) between identical calls through the logger,
 // its With / Named children, siblings, cores and encoder clones.
 
+//
+// CONCURRENT BURSTS.  All of the above observes ONE goroutine at a time inside zap.  A pooled object that
+// sits in its pool twice (handed back twice by one call - e.g. on the `stack.Count() == 0` return of
+// Logger.check, which only a caller skip beyond the stack reaches) is invisible that way; it takes two
+// goroutines holding "their" object at the same time.  c08_burst.go: edge preludes (history operation
+// kind 21), a probe in which several goroutines with loggers, sinks and call sites of their own log the
+// same entry at the same time, every line compared with the line the same call produces alone, and a
+// directed stage that sets the number of Ps before the history (sync.Pool forgets on a change).
+
 import (
 	"bytes"
 	"context"
@@ -969,11 +978,14 @@ func c08Probes(seed uint64) []*c08Probe {
 	c08HugeProbes(add)
 	// logger families that share one EncoderConfig, partial callbacks, unusual entries (c08_family.go)
 	c08FamilyProbes(seed, add)
+	// several goroutines, each with a logger, sinks and a call site of its own, logging the same entry at the
+	// same time (c08_burst.go)
+	c08BurstProbes(add)
 	return ps
 }
 
 // ---------- history operations ----------
-const c08NKinds = 21 // 16..19: oversize operations (c08_huge.go); 20: a long-lived logger family (c08_family.go)
+const c08NKinds = 22 // 16..19: oversize operations (c08_huge.go); 20: a long-lived logger family (c08_family.go); 21: an edge prelude (c08_burst.go)
 
 // executes one history operation; returns its abstraction and a class letter.  Its sinks and hooks
 // are retired when it is over; whatever reached a retired sink / hook meanwhile is unexpected.
@@ -1195,6 +1207,8 @@ func c08HistOp1(sc *c08Scope, r *RNG, kind int) (desc SX, class string, unexpect
 	case c08KFamily: // an unusual or ordinary entry through a member of a long-lived logger family (c08_family.go)
 		fd, fc := c08FamOp(sc, r, quiet)
 		return fd, fc, unexpected
+	case c08KEdge: // a logger whose caller skip lies beyond the stack logs 1..64 entries, maybe one GC (c08_burst.go)
+		return c08EdgeHistOp(sc, r, a, b, quiet)
 	case c08KHugeField, c08KHugeCtx, c08KHugeShape, c08KHugeDirect: // entries of 70 KiB .. 1 MiB (c08_huge.go)
 		hd, hc, hu := c08HugeOp(sc, r, kind, quiet)
 		if unexpected == "" {
@@ -1298,6 +1312,9 @@ func c08(c *Ctx) {
 				panic(e)
 			}
 			info("aborted_after_mismatches", strconv.Itoa(mismatches))
+			if c08Hung.Load() {
+				info("aborted_after_hang", "a log call of a concurrent burst did not return")
+			}
 		}
 	}()
 	observe := func(p *c08Probe, hist []SX, classes string, class string, act int) {
@@ -1323,6 +1340,10 @@ func c08(c *Ctx) {
 			out = []byte("PANIC " + pm)
 		}
 		emit(p, hist, classes, out, class, act)
+		if c08Hung.Load() {
+			// a goroutine of the burst is spinning inside zap for good: the case is on record, the run ends here
+			panic(c08Abort{})
+		}
 	}
 
 	// fresh observations: pools emptied by two collections before each probe
@@ -1448,6 +1469,11 @@ func c08(c *Ctx) {
 			}
 		}
 	}
+	// edge preludes (and every other kind of history operation) followed by a full-size concurrent burst,
+	// with the number of Ps set before the history (c08_burst.go)
+	t0 := time.Now()
+	c08EdgeStage(c.Seed, c.Thorough, r, probes, viol, observe)
+	info("edge_stage_ms", strconv.FormatInt(time.Since(t0).Milliseconds(), 10))
 	// probe after probe (each probe is also a history for every other one)
 	for _, p := range probes {
 		for _, q := range probes {
@@ -1559,7 +1585,12 @@ func c08(c *Ctx) {
 						act = 1 + r.Intn(c08NActs-1)
 						cl2 += "-active"
 					}
+					if p.label == c08BurstLabel && act == 0 && runtime.GOMAXPROCS(0) > 1 {
+						// several Ps since the beginning of this history: a burst of medium size
+						c08BurstPlan = &c08BurstCfg{g: 2 + r.Intn(7), n: 500 + r.Intn(1000), first: r.Intn(8)}
+					}
 					observe(p, hist, cls, cl2, act)
+					c08BurstPlan = nil
 				}
 			}
 		}
